@@ -147,7 +147,7 @@ class n0xml:
     def findall(
         self,
         xpath: typing.Union[str, list],
-        root_xpath: typing.Union[str, list] = [],
+        root_xpath: typing.Union[str, list, None] = None,
         find_first: bool = False
     ) -> list:
         """
@@ -292,8 +292,13 @@ class n0xml:
                     break
                 xpath = normalized_xpath
             xpath = xpath.replace("/[", '[').strip('/').split('/')
-        if isinstance(root_xpath, str):
+        if root_xpath is None:
+            root_xpath = []
+        elif isinstance(root_xpath, str):
             root_xpath = root_xpath.replace("/[", '[').strip('/').split('/')
+        else:
+            # the path reported for a hit at the root is this very list: never hand out the caller's (or a shared default) object
+            root_xpath = list(root_xpath)
 
         first_found = None
 
@@ -303,7 +308,7 @@ class n0xml:
     def findfirst(
         self,
         xpath: typing.Union[str, list],
-        root_xpath: typing.Union[str, list] = [],
+        root_xpath: typing.Union[str, list, None] = None,
     ) -> tuple:
         found = self.findall(xpath, root_xpath, find_first=True)
         if found:
